@@ -109,6 +109,9 @@ class C17(PropBase):
         "hand from parser.rs and validated against the real crate by the url probe (lookup cases + server-URL cases; the scheme/authority "
         "branches are not reachable through the public API and are validated by reading only); host, query, fragment not modelled",
         "str::to_lowercase modelled as ASCII lowering when compared with 'pdb'/'dll' (the only non-ASCII char lowering to ASCII is U+212A -> k)",
+        "translate/join_sites.py (regex/bracket extraction of every .join( / join_rel( call of the non-test code of lib.rs and http.rs); "
+        "C17/Consumers.v is a hand-written account of what each site joins (the fs probe and the url probe exercise the sites end to end); "
+        "joins written without .join( / join_rel( are outside the guard",
         "ids: the theorems assume hex-only id text; the harness observes that DebugId::breakpad() and CodeId render hex only",
         "extraction: ExtrOcamlBasic only; ocaml/zconv.ml + ocaml/c17/main.ml glue; harness/src/bin/c17.rs",
     ]
@@ -119,7 +122,10 @@ class C17(PropBase):
                 "POSIX or Windows Path::join rules (incl. verbatim roots) or by URL concatenation keeps the root as a prefix (c17_join_contained, "
                 "c17_join_verbatim_contained); for the real URL path — http.rs join_rel followed by WHATWG reference resolution as Url::join does it — "
                 "every safe path, hence every builder output, is requested below the base directory for every base path (c17_url_join_contained, "
-                "c17_url_requests_contained, c17_url_code_info_contained; refuted without the encoding). The tree "
+                "c17_url_requests_contained, c17_url_code_info_contained; refuted without the encoding). Consumers: every string a modelled consumer "
+                "(SimpleSymbolSupplier::locate_file, the four HTTP fetch paths) joins onto a symbol dir, cache dir or server URL is safe "
+                "(c17_consumers_join_only_safe), and the join sites extracted from lib.rs/http.rs on every run are exactly the modelled ones "
+                "(c17_join_sites_modelled); an end-to-end filesystem probe runs both suppliers over a sandbox with decoys. The tree "
                 "before the fix is refuted (c17_relative_unfixed_refuted). Model tied to the code by running both on ~45k exhaustive "
                 "and random (code_file, debug_file, ids) cases in debug and release builds; an independent oracle re-checks the three "
                 "conditions and a real std::path join on the implementation's answers.",
